@@ -50,7 +50,7 @@ SHRINK = ["ops"]
 def plan(tier):
     if tier == "thorough":
         return {"cases": 2000, "timeout": 600, "wall_budget": 1700, "recheck": 5, "nproc": 6}
-    return {"cases": 30, "timeout": 400, "wall_budget": 65, "recheck": 2, "nproc": 6}
+    return {"cases": 60, "timeout": 400, "wall_budget": 100, "recheck": 2, "nproc": 6}
 
 def gen_case(rng, tier, index):
     feats = {"shared", "checkoutscript"} | set(rng.sample(["import", "vars", "tools", "provideVars", "classes", "diamond", "provideDeps", "depenv"], rng.randint(1, 5)))
